@@ -53,6 +53,7 @@ type Contract struct {
 	Uses     []string // lemma: names of earlier lemmas used as hypotheses
 	Witnesses []*Witness // existentially quantified ghost values of the postcondition
 	Writes   []string   // lib: pointer parameters whose pointee is overwritten with an unconstrained value
+	Applies  []*Clause  // lemma: explicit instances of earlier lemmas, e.g. KVol_tail(s, bech32(p), s2, bech32(p2))
 	Hints    []*Clause  // lemma: terms mentioned so that axiom patterns can fire (no new facts)
 }
 
@@ -66,7 +67,7 @@ type Witness struct {
 
 var clauseKW = map[string]bool{"func": true, "lib": true, "lemma": true, "props": true, "theory": true, "requires": true, "ensures": true, "preserves": true,
 	"modifies": true, "loop": true, "returns": true, "inline": true, "noinline": true, "pure": true, "maypanic": true, "trusted": true,
-	"results": true, "fresh": true, "uses": true, "end": true, "witness": true, "hint": true, "assumes": true, "writes": true}
+	"results": true, "fresh": true, "uses": true, "end": true, "witness": true, "hint": true, "assumes": true, "writes": true, "apply": true}
 
 var labelRe = regexp.MustCompile(`^\s*(\[[A-Za-z0-9_, ]+\])?\s*([A-Za-z_][A-Za-z0-9_]*)\s*:([^:=].*|$)`)
 var tagOnlyRe = regexp.MustCompile(`^\s*\[([A-Za-z0-9_, ]+)\]\s*(.*)$`)
@@ -209,6 +210,12 @@ func parseContractFile(path, pkgPath string) ([]*Contract, error) {
 				return nil, fmt.Errorf("%s:%d: %v", path, r.line, err)
 			}
 			cur.Witnesses = append(cur.Witnesses, &Witness{Name: head[:j], Sort: strings.TrimSpace(head[j:]), E: e, Src: r.text})
+		case "apply":
+			c, err := parseClause(r.text, path, r.line)
+			if err != nil {
+				return nil, err
+			}
+			cur.Applies = append(cur.Applies, c)
 		case "hint":
 			c, err := parseClause(r.text, path, r.line)
 			if err != nil {
